@@ -275,6 +275,34 @@ func run(w *ev.W) {
 			w.Done()
 			return
 		}
+		// the comparison is between the two COMMITS: whatever the working tree holds
+		// (the old contents again, nothing, garbage), the report stays the same
+		if len(script) <= 1 {
+			dirty := func(name string, mutate func(path, rel string)) {
+				for rel := range tr {
+					mutate(filepath.Join(dir, rel), rel)
+				}
+				got, gerr := inProcess(dir, nil)
+				w.Count("dirty_working_tree_runs", 1)
+				if got != base {
+					w.Violation(sigOf(script, "depends-on-working-tree:"+name), fmt.Sprintf("script %v: with the working tree %s git.Compare reports {%s} (%s) instead of {%s}", script, name, got, gerr, base), h)
+				}
+			}
+			dirty("holding the previous commit's contents", func(path, rel string) {
+				if old, ok := fr[rel]; ok {
+					os.WriteFile(path, []byte(old), 0o644)
+				} else {
+					os.Remove(path)
+				}
+			})
+			dirty("holding unparsable text", func(path, rel string) { os.WriteFile(path, []byte("struct {{{ not thrift"), 0o644) })
+			dirty("without the files", func(path, rel string) { os.Remove(path) })
+			// restore HEAD's contents for the runs that follow
+			for rel, text := range tr {
+				os.MkdirAll(filepath.Dir(filepath.Join(dir, rel)), 0o755)
+				os.WriteFile(filepath.Join(dir, rel), []byte(text), 0o644)
+			}
+		}
 		// all map orders
 		distinct := map[string]bool{}
 		ex := &choice.Explorer{Bound: 1}
